@@ -618,7 +618,7 @@ verdict_t check_tune(const mcase_t& c, ctx_t& ctx)
 {
     const auto d = c.grids.size();
     const auto n = c.samples.size();
-    if (n < 20 || n > 400 || c.splitter < 0 || c.splitter > 1 || c.folds < 2 || c.folds > 10 || c.split_seed < 0 || c.split_seed > 1024 ||
+    if (n < 10 || n > 400 || c.splitter < 0 || c.splitter > 1 || c.folds < 2 || c.folds > 10 || c.split_seed < 0 || c.split_seed > 1024 ||
         c.train_per < 10 || c.train_per > 90 || c.tuner < 0 || c.tuner > 1 || c.max_evals < 10 || c.max_evals > 1000 || d > 2 ||
         c.log10.size() != d || c.coeffs.size() != 6 || c.levels < 1 || (c.threads != 1 && c.threads != 2 && c.threads != 16) ||
         c.delays.size() > 4096)
@@ -759,6 +759,15 @@ verdict_t check_tune(const mcase_t& c, ctx_t& ctx)
     {
         return verdict_t::violation("C13/harness/configuration", e.what());
     }
+    bool single_sample_fold = false;
+    for (const auto& split : splits)
+    {
+        if (split.first.size() == 0 || split.second.size() == 0)
+        {
+            return verdict_t::discard("empty-training-or-validation-set");
+        }
+        single_sample_fold = single_sample_fold || split.first.size() == 1 || split.second.size() == 1;
+    }
     try
     {
         const hook_guard_t guard(c.delays);
@@ -789,6 +798,7 @@ verdict_t check_tune(const mcase_t& c, ctx_t& ctx)
     ctx.label_if(!c.delays.empty(), "schedule-perturbed");
     ctx.label_if(c.levels <= 4, "few-levels(ties)");
     ctx.label_if(n % static_cast<size_t>(c.folds) != 0, "samples-not-divisible-by-folds");
+    ctx.label_if(single_sample_fold, "fold-with-a-single-sample");
 
     if (thrown)
     {
@@ -994,7 +1004,9 @@ verdict_t check_tune(const mcase_t& c, ctx_t& ctx)
 rc::Gen<mcase_t> gen_tune()
 {
     const auto samples = rc::gen::mapcat(
-        rc::gen::pair(gen::range<size_t>(20, 120), gen::range<int>(0, 2)),
+        // 30 %: few samples, so that folds with a SINGLE validation (or training) sample occur (k-fold: #samples < 2 x folds)
+        rc::gen::pair(rc::gen::mapcat(gen::chance(30), [](const bool few) { return few ? gen::range<size_t>(10, 24) : gen::range<size_t>(20, 120); }),
+                      gen::range<int>(0, 2)),
         [](const std::pair<size_t, int>& ns)
         {
             // distinct indices: increasing with gaps; optionally reversed or interleaved
